@@ -532,7 +532,71 @@ def c_dedup(ctx, key):
     return key if n == 1 else "%s#%d" % (key, n)
 
 
-RULES = [("magic", rule_magic), ("scheme", rule_scheme), ("mask-edges", rule_mask_edges), ("ray-walk", rule_ray_walk), ("leapers", rule_leapers), ("queen", rule_queen)]
+def rule_subset_enum(ctx):
+    """get_blockers_from_index(idx, mask) pairs bit i of idx with the i-th lowest set bit of mask, for i in 0..popcount(mask):
+    with idx running over 0..2^popcount it therefore enumerates every subset of the mask exactly once."""
+    ix = ctx.ix
+    from .c05 import loop_range
+    b = ctx.body("board::piece::Magic::get_blockers_from_index")
+    sym = ctx.sym(b)
+    # loop bound: 0 .. count_ones(mask)
+    rng = None
+    for bi, i, s in b.stmts():
+        rv = s["rv"]
+        if rv.get("k") == "agg" and rv.get("adt", "").endswith("ops::Range") and len(rv["ops"]) == 2:
+            lo = const_int(rv["ops"][0])
+            hi = sym.operand(rv["ops"][1])
+            rng = (lo, hi)
+    ok = rng is not None and rng[0] == 0 and rng[1][0] == "call" and rng[1][1] == "board::bitboard::Bitboard::count_ones" and mir.strip_copies(rng[1][2][0]) == ("arg", "mask")
+    # count_ones must be taken before the mask is consumed
+    drops = [(bi, t) for bi, t in b.calls() if callee_is(t, "board::bitboard::Bitboard::drop_forward")]
+    cnt = [bi for bi, t in b.calls() if callee_is(t, "board::bitboard::Bitboard::count_ones")]
+    ok = ok and len(cnt) == 1 and len(drops) == 1 and not b.in_loop(cnt[0]) and b.dominates(cnt[0], drops[0][0])
+    ctx.check(ok, "subset-enum:loop-over-popcount", "the loop runs i over 0..mask.count_ones(), counted before any bit is dropped", b.where(0), bad_what="get_blockers_from_index does not loop over 0..popcount(mask) (range %s)" % (rng,))
+    if len(drops) == 1:
+        db, dt = drops[0]
+        on_mask = mir.strip_refs(sym.operand(dt["args"][0])) == ("arg", "mask")
+        once = b.in_loop(db) and db not in b.reachable_from(dt["target"], removed=set(bi for bi, t in b.calls() if "Range<A>>::next" in (t.get("callee") or "")), include_start=True)
+        ctx.check(on_mask and once, "subset-enum:one-bit-per-iteration", "each iteration pops exactly one (the lowest) set bit of the mask", b.where(db), bad_what="drop_forward is not applied to the mask exactly once per iteration")
+        # the OR: blockers |= 1 << <that bit index>, under (idx & (1 << i)) != 0
+        ors = [(bi, t) for bi, t in b.calls() if callee_is(t, "*BitOrAssign<u64>>::bitor_assign", "*BitOrAssign>::bitor_assign")]
+        ok = len(ors) == 1
+        if ok:
+            ob, ot = ors[0]
+            val = sym.operand(ot["args"][1])
+            tgt = mir.strip_refs(sym.operand(ot["args"][0]))
+            shl_ok = val[0] == "bin" and val[1].startswith("Shl") and val[2][0] == "const" and val[2][1] == 1 and val[3][0] == "call" and val[3][1] == "board::bitboard::Bitboard::drop_forward"
+            cons = C.constraints_for(ix, b, sym, ob)
+            g = [c for c in cons if c[3][0] == "bin" and c[3][1] in ("Ne", "Eq", "Gt")]
+            cond_ok = False
+            for c in g:
+                e = c[3]
+                want_true = e[1] in ("Ne", "Gt")
+                lhs = e[2]
+                if lhs[0] == "bin" and lhs[1] == "BitAnd" and e[3][0] == "const" and e[3][1] == 0 and (want_true in c[1]):
+                    a, m = lhs[2], lhs[3]
+                    if a != ("arg", "idx"):
+                        a, m = m, a
+                    if a == ("arg", "idx") and m[0] == "bin" and m[1].startswith("Shl") and m[2][0] == "const" and m[2][1] == 1 and loop_range(sym, m[3]) is None:
+                        # m[3] must be the loop variable i
+                        lv = m[3]
+                        cond_ok = lv[0] == "field" and lv[-1] == "0" and lv[1][0] == "as" and lv[1][2] == "Some"
+            # the result variable starts at 0 and is what is returned
+            r = sym.local(0)
+            ret_ok = r == tgt and tgt[0] == "var"
+            ok = shl_ok and cond_ok and ret_ok
+        ctx.check(ok, "subset-enum:bit-i-selects-ith-mask-bit", "blockers |= 1 << (popped bit) exactly when bit i of idx is set; blockers is returned", b.where(ors[0][0] if ors else 0),
+                  bad_what="the pairing `idx bit i <-> i-th lowest mask bit` is not what get_blockers_from_index implements")
+    df = ctx.body("board::bitboard::Bitboard::drop_forward")
+    dsym = ctx.sym(df)
+    r = dsym.local(0)
+    clr = [dsym.rvalue(s["rv"]) for bi, i, s in df.stmts() if fields_of(s["lhs"]) == ("0",) and s["lhs"]["p"][0] == "*"]
+    ok = r[0] == "call" and r[1] == "board::bitboard::Bitboard::bitscan_forward" and len(clr) == 1 and clr[0][0] == "bin" and clr[0][1] == "BitAnd" and \
+        any(x[0] == "bin" and x[1].startswith("Sub") and x[3] == ("const", 1, "u64") for x in (clr[0][2], clr[0][3]) if isinstance(x, tuple))
+    ctx.check(ok, "drop_forward:pops-lowest-bit", "drop_forward returns trailing_zeros and clears that bit (x &= x - 1)", df.where(0), bad_what="drop_forward is `%s` / clears with %s" % (expr_str(r), [expr_str(c) for c in clr]))
+
+
+RULES = [("magic", rule_magic), ("scheme", rule_scheme), ("mask-edges", rule_mask_edges), ("ray-walk", rule_ray_walk), ("leapers", rule_leapers), ("queen", rule_queen), ("subset-enum", rule_subset_enum)]
 
 
 def run(tier):
@@ -542,8 +606,8 @@ def run(tier):
                      "independent geometric oracle, all 64+64 entries are checked over ALL blocker subsets (107,648) for index width, row bound and absence of destructive collisions. Structural rules tie the "
                      "constants to the code: reader and writer compute the same index expression over the same tables; rook/bishop masks drop exactly the far edge of each ray; the slow ray walk blocks each "
                      "direction with the right scan and clears the same direction; leaper initialisers normalise to exactly the 8/8/2+2 steps with exactly the wrapping files masked; queen = rook | bishop; "
-                     "Kind::get_attacks dispatches correctly with all_pieces as blockers. Not decided: the shift arithmetic of init_rays and get_blockers_from_index (value-level loops), so the claim is "
-                     "'tables are exact provided rays[sq][d] is the geometric ray and get_blockers_from_index enumerates the subsets of its mask'."),
-        assumptions=["rays[sq][d] equals the geometric ray (init_rays not decided)", "get_blockers_from_index(idx, mask) enumerates every subset of mask for idx in 0..2^popcount(mask)",
+                     "Kind::get_attacks dispatches correctly with all_pieces as blockers. get_blockers_from_index pairs bit i of the index with the i-th lowest mask bit over 0..popcount (so the fill loop enumerates every subset). "
+                     "Not decided: the shift arithmetic of init_rays (value-level), so the claim is 'tables are exact provided rays[sq][d] is the geometric ray'."),
+        assumptions=["rays[sq][d] equals the geometric ray (init_rays not decided)",
                      "square index = rank*8+file (checked by C04.same-words)"],
         extra={"exhaustive": True}, tier=tier)
